@@ -109,7 +109,17 @@ func unmarshallPack(def Definition, resolvers entity.Resolvers, data []byte) ([]
 	if !ok || rec.bad {
 		return nil, nil, fmt.Errorf("vh: undecodable pack")
 	}
-	return rec.ops, rec.author, nil
+	// decoding yields fresh operation objects on every read (as JSON decoding does) for
+	// operation types that can be cloned; the harness doubles are immutable and shared
+	ops := make([]Operation, len(rec.ops))
+	for i, op := range rec.ops {
+		if cl, ok := op.(interface{ VHClone() Operation }); ok {
+			ops[i] = cl.VHClone()
+		} else {
+			ops[i] = op
+		}
+	}
+	return ops, rec.author, nil
 }
 
 // MarshalJSON (M-PACK write side): the serialisation of a pack is an opaque blob that
@@ -122,6 +132,7 @@ func (opp *operationPack) MarshalJSON() ([]byte, error) {
 	}
 	return []byte(rec.token), nil
 }
+
 
 // ---- symbolic commit table ----
 
